@@ -108,6 +108,17 @@ def check_drop_water(ctx, rng):
 def check_neutral(ctx, rng):
     _f, res = G.window(rng, rng.choice([2, 3, 5]), must_have=rng.choice(G.AA3 + [None] * 10))
     G.set_chain(res, "A", 1)
+    if len(res) >= 3 and rng.random() < 0.45:
+        # two peptides under one chain identifier with no TER: the first one ends at an internal OXT
+        k = rng.randint(0, len(res) - 2)
+        c = next(a for a in res[k] if a.name == "C")
+        o = c.copy()
+        o.name, o.elem = "OXT", "O"
+        o.x += 1.2
+        res[k].append(o)
+        for r in res[k + 1 :]:
+            for a in r:
+                a.x += 30.0
     text = G.to_pdb([res])
     opt = rng.choice(["--neutraln", "--neutralc"])
     ra = G.run_pipeline(text, ["--ff=PARSE", "--whitespace"])
@@ -115,11 +126,22 @@ def check_neutral(ctx, rng):
     ctx.evaluations += 2
     if ra.status != "ok" or rb.status != "ok":
         if ra.status != rb.status:
-            return ("status", f"{opt}: {ra.status} -> {rb.status} ({str(rb.exc.__cause__ or rb.exc)[:80]})", text)
+            ends = {r[0].resn for r in res if any(a.name == "OXT" for a in r)} | {res[-1][0].resn}
+            cell = ("C-terminal " + ("PRO" if "PRO" in ends else "/".join(sorted(ends)))) if opt == "--neutralc" else "N-terminal " + res[0][0].resn
+            return ("status", f"{opt}: {ra.status} -> {rb.status} ({str(rb.exc.__cause__ or rb.exc)[:80]})", text, cell)
         return None
     qa = sum(Decimal(repr(r.charge)) for r in ra.biomolecule.residues)
     qb = sum(Decimal(repr(r.charge)) for r in rb.biomolecule.residues)
     neutralised = sum(1 for r in rb.biomolecule.residues if (getattr(r, "ffname", "") or "").startswith("NEUTRAL-" + opt[9].upper()))
+    # every terminus of the kind asked for must be neutralised (an N-terminal proline keeps its charge)
+    for y in rb.biomolecule.residues:
+        ffn = getattr(y, "ffname", "") or ""
+        if opt == "--neutralc" and getattr(y, "is_c_term", 0) and not getattr(y, "is_n_term", 0) and not ffn.startswith("NEUTRAL-C"):
+            return ("neutral-not-applied", f"--neutralc: C-terminal residue {y} is looked up as {ffn}", text)
+        if opt == "--neutraln" and getattr(y, "is_n_term", 0) and y.name != "PRO" and not ffn.startswith("NEUTRAL-N"):
+            return ("neutral-not-applied", f"--neutraln: N-terminal residue {y} is looked up as {ffn}", text)
+        if opt == "--neutraln" and ffn.startswith("NEUTRAL-C") or opt == "--neutralc" and ffn.startswith("NEUTRAL-N"):
+            return ("neutral-wrong-end", f"{opt}: residue {y} is looked up as {ffn}", text)
     want = qa + (-neutralised if opt == "--neutraln" else neutralised)
     if qb != want:
         return ("neutral-shift", f"{opt}: total charge {qa} -> {qb}, {neutralised} terminus neutralised", text)
@@ -128,7 +150,12 @@ def check_neutral(ctx, rng):
         # "change only chain-terminal residues": a residue at either end of a chain is terminal
         terminal = bool(getattr(y, "is_n_term", 0)) or bool(getattr(y, "is_c_term", 0))
         if not terminal and [(a.name, a.ffcharge, a.radius, a.x, a.y, a.z) for a in x.atoms] != [(a.name, a.ffcharge, a.radius, a.x, a.y, a.z) for a in y.atoms]:
-            return ("neutral-nonterminal", f"{opt}: non-terminal residue {y} changes", text)
+            # what changes: parameters / atom set, or only where the hydrogen-bond optimisation put atoms
+            same_params = [(a.name, a.ffcharge, a.radius) for a in x.atoms] == [(a.name, a.ffcharge, a.radius) for a in y.atoms]
+            moved = [a.name for a, b in zip(x.atoms, y.atoms) if (a.x, a.y, a.z) != (b.x, b.y, b.z)] if same_params else []
+            flip = y.name in ("ASN", "GLN", "HIS", "HID", "HIE", "HIP")
+            only_opt = same_params and all(n.startswith("H") or flip for n in moved)
+            return ("neutral-nonterminal", f"{opt}: non-terminal residue {y} changes ({'positions of ' + ','.join(moved) if same_params else 'atom set / parameters'})", text, "optimised-positions-only" if only_opt else "parameters-or-heavy-atoms")
     return None
 
 
@@ -203,11 +230,13 @@ def run(ctx: Ctx):
             if tuple(sig.items()) not in seen:
                 seen.add(tuple(sig.items()))
                 ctx.violate(sig, pr[1], {"pdb": pr[2], "ff": pr[3], "base": pr[4], "option": pr[5]})
-    for ci in range(ctx.scale(16, 600)):
+    for ci in range(ctx.scale(28, 600)):
         pr = check_neutral(ctx, rng)
         ctx.count("oracle", "holds" if pr is None else pr[0])
         if pr is not None:
             sig = {"option": "neutral-termini", "column": pr[0]}
+            if len(pr) > 3:
+                sig["cell" if pr[0] == "status" else "what"] = pr[3]
             if tuple(sig.items()) not in seen:
                 seen.add(tuple(sig.items()))
                 ctx.violate(sig, pr[1], {"pdb": pr[2], "ff": "PARSE", "base": [], "option": "neutral"})
